@@ -318,7 +318,13 @@ def _widen(ctx: Ctx, rels: List[str]) -> List[str]:
                 for line in fh:
                     if line.strip():
                         d = json.loads(line)
-                        _ANCHOR_FILES[d["id"]] = list(d.get("anchors", {}).get("files", []))
+                        fs = list(d.get("anchors", {}).get("files", []))
+                        for mm in d.get("anchors", {}).get("mechanism", []) + d.get("anchors", {}).get("state", []):
+                            for part in mm.get("where", "").split(";"):
+                                f_ = part.split(":", 1)[0].strip()
+                                if f_.endswith(".py") and f_ not in fs:
+                                    fs.append(f_)
+                        _ANCHOR_FILES[d["id"]] = fs
         except OSError:
             pass
     out = list(rels)
@@ -791,3 +797,38 @@ def rule_subject_drift(ctx: Ctx, rels: List[str]) -> None:
                                      f"without doing anything (a later use of what it was to assign raises UnboundLocalError)",
                                      func=qualname(fn), construct=f"{qualname(fn)}: isinstance chain tests both `{ka}` and `{kb}`")
     ctx.ok_abstract("chain.subject-drift", f"{chains_seen} isinstance chains examined, {hits} with a drifting subject")
+
+
+# --------------------------------------------------------------------------- type.isinstance-on-class
+
+
+def rule_isinstance_on_class(ctx: Ctx, rels: List[str]) -> None:
+    """type.isinstance-on-class: `isinstance(c, K)` where `c` holds a *class* (it was bound to `type(x)` / `x.__class__` on a path that
+    reaches the test) asks whether the class object is an instance of K — always False for an ordinary class K; `issubclass(c, K)` is
+    what is meant.  The branch guarded by such a test is dead, whatever it was supposed to handle falls through to the default."""
+    rels = _widen(ctx, rels)
+    repo = ctx.repo
+    scanned = hits = 0
+    for rel in rels:
+        m = repo.module(rel)
+        for fn in [f for f in ast.walk(m.tree) if isinstance(f, (ast.FunctionDef, ast.AsyncFunctionDef))]:
+            scanned += 1
+            classy = {}
+            for a in ast.walk(fn):
+                if isinstance(a, ast.Assign) and len(a.targets) == 1 and isinstance(a.targets[0], ast.Name):
+                    v = a.value
+                    if (isinstance(v, ast.Call) and isinstance(v.func, ast.Name) and v.func.id == "type" and len(v.args) == 1) or \
+                            (isinstance(v, ast.Attribute) and v.attr == "__class__"):
+                        classy.setdefault(a.targets[0].id, a)
+            if not classy:
+                continue
+            for c in [x for x in ast.walk(fn) if isinstance(x, ast.Call) and isinstance(x.func, ast.Name) and x.func.id == "isinstance" and len(x.args) == 2]:
+                subj, k = c.args
+                if isinstance(subj, ast.Name) and subj.id in classy and c.lineno > classy[subj.id].lineno and norm(k) not in ("type", "(type,)"):
+                    hits += 1
+                    ctx.touch(m, fn)
+                    ctx.fail("type.isinstance-on-class", m, c,
+                             f"`{short(c)}`: `{subj.id}` was re-bound to a class (`{short(classy[subj.id])}`, line {classy[subj.id].lineno}); a class object is not an "
+                             f"instance of `{norm(k)}`, so this test is False for every operation class and the branch it guards is never taken "
+                             f"(issubclass is meant)", func=qualname(fn), construct=f"{qualname(fn)}: isinstance({subj.id}, {norm(k)[:40]}) on a class")
+    ctx.ok_abstract("type.isinstance-on-class", f"{scanned} functions scanned, {hits} isinstance tests on a name bound to a class")
